@@ -248,12 +248,22 @@ def run_shard(desc):
                     tgt.append({"op": "reg_fn", "name": nm, "beh": {"id": 8000 + i, "ret": "tag"}})
                 else:
                     tgt.append({"op": "reg_infix", "name": nm, "prec": 115, "type": "CALC", "assoc": "LEFT", "beh": {"id": 8000 + i, "ret": "tag"}})
+            # phase 2: every name is overridden once more (new handler id, same precedence): an evaluation must then see
+            # the old or the new handler, never "unregistered"
+            for i, nm in enumerate(names):
+                tgt = reg_plan_a if i % 2 == 0 else reg_plan_b
+                tgt.append({"op": "wait_tick", "n": (nn + i) * 4 * E + rnd.randint(E, 3 * E)})
+                if nm.startswith("wf"):
+                    tgt.append({"op": "reg_fn", "name": nm, "beh": {"id": 8100 + i, "ret": "tag"}, "tag": "override"})
+                else:
+                    tgt.append({"op": "reg_infix", "name": nm, "prec": 115, "type": "CALC", "assoc": "LEFT", "beh": {"id": 8100 + i, "ret": "tag"}, "tag": "override"})
             plans = [reg_plan_a, reg_plan_b]
             for e in range(E):
                 plan = []
-                for i, nm in enumerate(names):
-                    for it in range(4):
-                        plan.append({"op": "hammer", "tick": True, "n": block, "text": ("%s(1)" % nm) if nm.startswith("wf") else ("6 %s 4" % nm), "tag": nm})
+                for phase in (1, 2):
+                    for i, nm in enumerate(names):
+                        for it in range(4):
+                            plan.append({"op": "hammer", "tick": True, "n": block, "text": ("%s(1)" % nm) if nm.startswith("wf") else ("6 %s 4" % nm), "tag": nm if phase == 1 else "2:" + nm})
                 plans.append(plan)
             steps = [{"op": "exec", "text": "1 + 1"}, {"op": "threads", "plans": plans, "jitter_ns": [0] * len(plans)}]
             run = common.run_vexec(steps, wd, "st-%d-%d" % (si, h), profile, timeout=600)
@@ -263,6 +273,7 @@ def run_shard(desc):
             th = run.steps()[1].get("threads", [])
             orders.add(order_signature(th))
             writes = {}
+            overrides = {}
             for recs in th[:2]:
                 if isinstance(recs, list):
                     for r in recs:
@@ -273,40 +284,56 @@ def run_shard(desc):
                     viol(["thread-panicked", "stress"], "a registrar thread panicked", None)
                     continue
                 for st_, r in zip(plans[pi], recs):
-                    if st_["op"].startswith("reg_"):
+                    if st_["op"].startswith("reg_") and st_.get("tag") != "override":
                         writes[st_["name"]] = (r["t0"], r["t1"], st_["beh"]["id"])
+                    elif st_["op"].startswith("reg_"):
+                        overrides[st_["name"]] = (r["t0"], r["t1"], st_["beh"]["id"])
             for e, recs in enumerate(th[2:]):
                 if not isinstance(recs, list):
                     viol(["thread-panicked", "stress"], "an evaluator thread panicked outside a step", None)
                     continue
-                seen_post = set()
+                stage_seen = {}  # name -> highest stage seen by this thread (0 = unregistered, 1 = first handler, 2 = override)
                 for r in recs:
-                    nm = r.get("tag")
+                    tag = r.get("tag")
+                    if not isinstance(tag, str):
+                        continue
+                    nm = tag[2:] if tag.startswith("2:") else tag
                     if nm not in writes:
                         continue
-                    w0, w1, hid = writes[nm]
-                    if nm.startswith("wf"):
-                        post = {"ok": ["l", [["n", str(hid), 0], ["n", "1", 0]]]}
-                    else:
-                        post = {"ok": ["l", [["n", str(hid), 0], ["n", "6", 0], ["n", "4", 0]]]}
+                    w0, w1, id1 = writes[nm]
+                    o0, o1, id2 = overrides.get(nm, (None, None, None))
+                    is_fn = nm.startswith("wf")
+
+                    def val(i_):
+                        return {"ok": ["l", [["n", str(i_), 0], ["n", "1", 0]]]} if is_fn else {"ok": ["l", [["n", str(i_), 0], ["n", "6", 0], ["n", "4", 0]]]}
+
                     for sg in r.get("segs", []):
                         res = sg["res"]
                         part["evaluations"] += sg["count"]
                         C["raced_reads"] = C.get("raced_reads", 0) + sg["count"]
-                        is_pre = (isinstance(res, dict) and "err" in res and "NotRegistered" in res["err"] and nm.startswith("wf")) or (res == {"ok": ["n", "4", 0]} and not nm.startswith("wf"))
-                        is_post = res == post
-                        if not (is_pre or is_post):
-                            viol(["torn-read", "stress"], "evaluating a program naming `%s` concurrently with its registration returned %s (%d times): neither the unregistered nor the registered behaviour" % (nm, json.dumps(res), sg["count"]), None)
-                        elif is_pre and sg["last_t0"] > w1:
-                            viol(["stale-read", "stress"], "an evaluation of `%s` called %.3f ms AFTER register returned still behaved as if it were unregistered (result %s)" % (nm, (sg["last_t0"] - w1) / 1e6, json.dumps(res)), None)
-                        elif is_post and sg["last_t1"] < w0 or (is_post and sg["first_t0"] < w0 and sg["count"] == 1 and sg["last_t1"] < w0):
-                            viol(["future-read", "stress"], "an evaluation of `%s` that returned before register was called already saw it" % nm, None)
-                        elif is_pre and nm in seen_post:
-                            viol(["non-monotonic-read", "stress"], "a thread saw `%s` registered and later unregistered again" % nm, None)
+                        if (isinstance(res, dict) and "err" in res and "NotRegistered" in res["err"] and is_fn) or (res == {"ok": ["n", "4", 0]} and not is_fn):
+                            stage = 0
+                        elif res == val(id1):
+                            stage = 1
+                        elif id2 is not None and res == val(id2):
+                            stage = 2
                         else:
-                            part["classes"].add("stress:%s:%s" % ("fn" if nm.startswith("wf") else "infix", "pre" if is_pre else "post"))
-                        if is_post:
-                            seen_post.add(nm)
+                            viol(["torn-read", "stress"], "evaluating a program naming `%s` concurrently with its (re-)registration returned %s (%d times): neither the unregistered behaviour nor one of the registered handlers" % (nm, json.dumps(res), sg["count"]), None)
+                            continue
+                        prev_stage = stage_seen.get(nm, 0)
+                        if stage < prev_stage:
+                            viol(["non-monotonic-read", "stress"], "a thread saw `%s` in registration state %d and later in the older state %d" % (nm, prev_stage, stage), None)
+                        elif stage == 0 and sg["last_t0"] > w1:
+                            viol(["stale-read", "stress"], "an evaluation of `%s` called %.3f ms AFTER register returned still behaved as if it were unregistered (result %s)" % (nm, (sg["last_t0"] - w1) / 1e6, json.dumps(res)), None)
+                        elif stage == 1 and sg["last_t1"] < w0:
+                            viol(["future-read", "stress"], "an evaluation of `%s` that returned before register was called already saw it" % nm, None)
+                        elif stage == 1 and o1 is not None and sg["last_t0"] > o1:
+                            viol(["stale-read", "override"], "an evaluation of `%s` called %.3f ms after its re-registration returned still used the replaced handler" % (nm, (sg["last_t0"] - o1) / 1e6), None)
+                        elif stage == 2 and sg["last_t1"] < o0:
+                            viol(["future-read", "override"], "an evaluation of `%s` that returned before the re-registration was called already used the new handler" % nm, None)
+                        else:
+                            part["classes"].add("stress:%s:stage%d" % ("fn" if is_fn else "infix", stage))
+                        stage_seen[nm] = max(prev_stage, stage)
                     if len(r.get("segs", [])) >= 2:
                         C["reads_overlapping_a_registration"] = C.get("reads_overlapping_a_registration", 0) + 1
     C["distinct_interleavings"] = len(orders)
